@@ -203,6 +203,19 @@ CHECKS = {
         "assumptions": ["testing/synctest", "rapid v1.3.0; go1.26.8"],
         "jobs": [{"pkg": "c14mapit", "kinds": ["map-iterator", "map-stream"], "scale_thorough": 8, "shards_thorough": 16, "replay_reps": 30}],
     },
+    "C18": {
+        "level": "exploration",
+        "level_text": ("xsync.Map: generated operation sequences over 4 keys for V in {int, string, *T, error, any} (generated values include the nil interface and an uncomparable value) applied to the wrapper and to sync.Map, "
+                       "results/flags/panics compared after every step; Watchable: sequential Set/Value plans against the obvious model (every channel ever returned is closed iff a later Set happened) and bubble scripts with 1-3 racing setters "
+                       "and 1-3 observer loops; Future: waiters before/after Fill with and without deadlines on the fake clock; Lazy: racing first calls"),
+        "level_note": "sync.Map is the reference for the typed map (xsync.Map adds no synchronisation of its own); the concurrent clauses are explored by generated timings and repetition in testing/synctest bubbles.",
+        "technique": "property-based differential testing (rapid) against sync.Map; model-based and bubble-script checks for Watchable/Future/Lazy",
+        "rule": ("kinds map, watchable-seq, watchable-conc, future, lazy. non-trivial: map = a load-type op hit an absent key and (for interface V) a present key holding a nil interface; watchable-seq = Value before the first Set and Set-Set-Value; "
+                 "watchable-conc = an observer saw the zero value before a Set or several Sets between two of its Values; future = a waiter present at Fill, >= 2 waiters; lazy = >= 2 racing callers; distinct = distinct plan JSON"),
+        "assumptions": ["sync.Map as reference", "testing/synctest", "rapid v1.3.0; go1.26.8"],
+        "jobs": [{"pkg": "c18sync", "run": "TestMap|TestWatchable|TestFuture$|TestLazy", "kinds": ["map", "watchable-seq", "watchable-conc", "future", "lazy"], "scale_thorough": 10, "shards_thorough": 16, "replay_reps": 20},
+                 {"pkg": "c18sync", "run": "TestFutureRace|TestLazy|TestWatchableSequential", "race": True, "kinds": ["future-race"], "scale_thorough": 5, "shards_thorough": 4, "replay_reps": 20}],
+    },
     "C04": {
         "level": "exploration",
         "level_text": ("Model-based property testing: thousands of generated operation histories (macro-ops reach wrapped, full, "
